@@ -75,6 +75,8 @@ static void fe_scenario(Rng &r, Plan &p, ExecOp &e, std::string *desc) {
     case 7: w.socks["/dev/log"].queued = w.socks["/dev/log"].capacity; w.socks["/run/snoopy-0.sock"].queued = 10; break; // queue full and unread
     default: w.socks["/dev/log"].state = 3; w.has_ctty = false; break;      // stream-type /dev/log; no controlling tty
     }
+    // the log file has (nearly) reached the caller's own file size limit (ulimit -f): "full" for this process only
+    if (oi <= 1 && r.chance(1, 3)) { w.disk_free = -1; w.files["/var/log"].kind = 1; w.files["/var/log"].open_errno = 0; w.files["/log"].kind = 1; w.files["/log"].open_errno = 0; FileNode f; f.content = oi == 0 ? std::string((size_t)r.range(0, 3) * 50, 'x') : ""; if (oi == 0) w.files["/var/log/snoopy.log"] = f; w.fsize_limit = (long long)f.content.size() + (long long)r.below(3) * 30; sinkstate = 9; }
     p.ops.push_back(op_setconfig(s.render(r, true)));
     e = gen_exec(r, "f_", (int)r.below(2));
     gen_outcome(r, e, true);
@@ -124,6 +126,7 @@ static Verdict oracle_c03(const Plan &p, const RunResult &r) {
         for (auto &e : r.hist) if (e.opi == cv.opi) {
             if (e.mark & MARK_BLOCKS) return bad("would-block:" + e.k, "'" + e.k + "' " + e.s + " would block the caller (flags " + std::to_string(e.c) + ")");
             if (e.mark & MARK_SIGPIPE) return bad("would-signal:SIGPIPE", "'" + e.k + "' on " + e.s + " would raise SIGPIPE");
+            if (e.mark & MARK_SIGXFSZ) return bad("would-signal:SIGXFSZ", "'" + e.k + "' on " + e.s + " starts at the process's file size limit (RLIMIT_FSIZE): the kernel raises SIGXFSZ, whose default action ends the caller before the real exec");
         }
         Verdict v = passthrough_oracle(*cv.op, *o, r);
         if (v.violated) return v;
@@ -149,6 +152,29 @@ static Plan gen_c16(uint64_t seed, const std::string &tier) {
     // with configurations that contain duplicate and invalid options
     if ((seed / FE_SLOTS) % 4 != 3) return gen_fault_enum("C16", seed, 4);
     Rng r(seed * 1000003 + 116);
+    if (g_thread_safe_build && (seed % 4 == 1 || seed % 4 == 2)) {
+        // the calling process is more than the calling thread: while two or three of its threads make wrapped calls, another one opens and
+        // closes descriptors of its own and must find every one of them as it left it (sink states as in the fault families)
+        Plan p; p.property = "C16"; p.seed = seed; ExecOp e; std::string desc;
+        fe_scenario(r, p, e, &desc);
+        if (p.world.stdout_kind == 3) p.world.stdout_kind = 0;
+        e.success = false; e.faults.clear();
+        if (r.chance(3, 4)) {   // mostly the outputs that own a descriptor, half of the time with a sink that refuses the record
+            World &w = p.world; CfgSpec s2; s2.has_output = true; s2.has_format = true; s2.format = ALL_DS_FORMATS[4];
+            int oc = (int)r.below(10); s2.output = oc < 4 ? "socket:/run/snoopy-0.sock" : oc < 6 ? "devlog" : oc < 9 ? "file:/var/log/snoopy.log" : "devtty";
+            w.socks["/run/snoopy-0.sock"] = SockNode(); w.socks["/dev/log"] = SockNode(); w.files["/var/log"].kind = 1; w.files["/var/log"].open_errno = 0;
+            if (r.chance(1, 2)) { w.socks["/run/snoopy-0.sock"].queued = w.socks["/run/snoopy-0.sock"].capacity; w.socks["/dev/log"].queued = w.socks["/dev/log"].capacity; w.disk_free = 0; }
+            p.ops.clear(); p.ops.push_back(op_setconfig(s2.render(r, true)));
+            desc = s2.output.substr(0, s2.output.find(':')) + "/threads";
+        }
+        Op b; b.op = "Batch"; int nt = (int)r.range(2, 3);
+        for (int t = 0; t < nt; t++) { std::vector<ExecOp> calls((size_t)r.range(1, 2), e); b.threads.push_back(calls); }
+        if (r.chance(1, 2)) { static const char *k[] = {"send", "write", "connect", "close", "open", "read"}; Fault f; f.kind = k[r.below(6)]; f.nth = (int)r.below(2); f.err = r.chance(1, 2) ? 11 : 5; b.threads[0][0].faults.push_back(f); }
+        b.policy = 0; b.sched_seed = r.next(); b.app_opens = (int)r.range(6, 24);
+        p.ops.push_back(b);
+        p.extra.set("scenario", "threads|" + desc); p.extra.set("fault", "none");
+        return p;
+    }
     Plan p; p.property = "C16"; p.seed = seed; p.world = gen_world(r);
     World &w = p.world; w.socks["/run/snoopy-0.sock"] = SockNode();
     std::string cfg = gen_known_config(r, w);
@@ -179,6 +205,16 @@ static Verdict residue(const std::string &at, const Snap &a, const Snap &b, bool
 }
 static Verdict oracle_c16(const Plan &p, const RunResult &r) {
     if (g_variant[0] != 'a') return ok();
+    if (!r.app_damage.empty()) return bad("foreign-descriptor-closed", r.app_damage);
+    if (p.extra.gets("scenario").compare(0, 8, "threads|") == 0) {   // descriptor tables and heap are shared between the threads: per call only what belongs to the calling thread is compared
+        for (auto &cv : calls_of(p)) {
+            const ExecObs *o = obs_of(r, cv.opi); if (!o) continue;
+            if (o->real_calls < 1) return bad("exec-not-reached", "call #" + std::to_string(cv.opi) + ": real exec not reached");
+            if (o->before.sig_sum != o->at_exec.sig_sum || o->before.sig_sum != o->after.sig_sum) return bad("signals-changed", "call #" + std::to_string(cv.opi) + ": signal mask or dispositions of the calling thread changed");
+            if (o->before.env_sum != o->after.env_sum || o->before.cwd != o->after.cwd || o->before.umask_v != o->after.umask_v) return bad("process-state-changed", "call #" + std::to_string(cv.opi) + ": environment, working directory or umask changed");
+        }
+        return ok();
+    }
     const Snap *warm = nullptr;
     for (auto &cv : calls_of(p)) {
         const ExecObs *o = obs_of(r, cv.opi); if (!o) continue;
@@ -195,6 +231,7 @@ static Verdict oracle_c16(const Plan &p, const RunResult &r) {
 }
 static void describe_c16(const Plan &p, const RunResult &r, J &line) {
     describe_fe(p, r, line);
+    if (p.extra.gets("scenario").compare(0, 8, "threads|") == 0) { line.set("sig", p.extra.gets("scenario") + "|" + std::to_string(r.sched_points / 20)); line.set("nontrivial", r.max_overlap >= 1); line.set("p_application_thread", true); }
     if (p.extra.gets("scenario") == "repeat") { line.set("sig", "repeat|" + std::to_string(p.extra.geti("repeats") / 10) + "|" + std::to_string(fnv(p.ops[0].cfg) % 997)); line.set("nontrivial", true); line.set("p_repeat", true); if (p.extra.geti("repeats") >= 100) line.set("p_repeat_ge_100", true); }
     if (p.ops[0].cfg.find("first %{uid}") != std::string::npos || p.ops[0].cfg.find("dup-%{uid}") != std::string::npos) line.set("p_duplicate_option", true);
 }
